@@ -5,6 +5,8 @@
  *  -DBYEASTER BYEASTER=N candidate == Easter + N days
  *  -DSHIFTD   SHIFT=N   (calendar days)
  *  -DSHIFTB   SHIFT=NB / NB+ / -NB- / -0B (business days) */
+#define WORD_MEMOPS
+#include "libc_models.h"
 #include "evrrul.c"
 #include "cal.h"
 #include "easter.h"
